@@ -140,6 +140,25 @@ def streams_restored(ctx, rep, rule):
             'stopTest', n, floor=20)
 
 
+def buffered_while_running(ctx, rep, rule):
+    """--buffer: as long as a test is running and no outcome was reported for it, both std
+    streams are the capture buffers (otherwise what a passing test prints reaches the output)"""
+    ex = exploration(ctx)
+    hits, n = [], 0
+    for tr in ex.transitions:
+        if not tr.config.get('buffer') or tr.dst != 'RUN':
+            continue
+        n += 1
+        for chan in ('sys.stdout', 'sys.stderr'):
+            if not _buffered(tr.post, chan):
+                hits.append(('%s: %s is not captured while the test is still running' % (
+                    tr.method, chan), tr, 'after %s the test goes on (no failure, error or skip '
+                    'was reported) but %s is not the capture buffer: output of a test that may '
+                    'still pass reaches the real stream' % (tr.event, chan)))
+    _report(ctx, rep, rule, hits, 'while a test runs and nothing was reported for it, sys.stdout and '
+            'sys.stderr are the capture buffers', n, floor=8)
+
+
 def never_without_buffer(ctx, rep, rule):
     ex = exploration(ctx)
     hits, n = [], 0
